@@ -1,5 +1,6 @@
 import GorumsV.Props.C01
 import GorumsV.Tie.C02
+import GorumsV.Tie.TreeParams
 /-!
   Tie for C01: the loop parameters of the tree are the good ones (Tie/C02), an arrival is
   treated as a failure exactly when it carries an error, and the reply channel has room
@@ -28,6 +29,22 @@ theorem tree_ok_is_qf_verdict (qf : RepMap M → R × Bool) (x : Nat) (as : List
 theorem tree_async_same_log (qf : RepMap M → R × Bool) (x : Nat) (as : List (Arrival M E)) :
     (runAsync Tie.C02.P_async qf x as).2 = (run Tie.C02.P_async qf x as).2 := C01.async_same_log _ _ _ _
 
+
+/-! ### genuine replies, end to end (composite system `Net` on the tree's parameters) -/
+
+theorem net_echo_good : Tie.Tree.echoFacts = true := by decide
+theorem net_ids_good : Tie.Tree.idFacts = true := by decide
+theorem net_nid_good : Tie.Tree.nidFacts = true := by decide
+
+/-- every entry of every reply set shown to the quorum function is, under node n, what n's handler computed from the
+    payload this very call addressed to n — for the tree's loop parameters and the tree's id handling -/
+theorem tree_qf_sees_only_genuine {E R : Type} (h : Net.NodeId → Net.Payload → Chan.Resp) (s : Net.State)
+    (hr : Net.Reachable (Tie.Tree.netParams h) s) (c : Chan.CallId) (as : List (Arrival Nat E)) (hg : NetP.GenuineFor s c as)
+    (qf : RepMap Nat → R × Bool) (x : Nat) (reps : RepMap Nat) (hreps : reps ∈ (run Tie.C02.P_qc qf x as).2)
+    (n : Net.NodeId) (v : Nat) (hv : (n, v) ∈ reps) :
+    ∃ id p, (⟨id, c, n, p⟩ : Net.Issue) ∈ s.issued ∧ h n p = .reply v :=
+  NetP.qf_sees_only_genuine _ (by intro i; simp [Tie.Tree.netParams, net_echo_good]) s hr c as hg _ qf x reps hreps n v hv
+
 end GorumsV.Tie.C01
 
 section Audit
@@ -35,6 +52,12 @@ open GorumsV.Tie.C01 GorumsV.C01
 #print axioms qc_errGuard_good
 #print axioms async_errGuard_good
 #print axioms chanCap_good
+#print axioms net_echo_good
+#print axioms net_ids_good
+#print axioms net_nid_good
+#print axioms tree_qf_sees_only_genuine
+#print axioms GorumsV.NetP.qf_sees_only_genuine
+#print axioms GorumsV.NetP.provenance
 #print axioms tree_ok_is_qf_verdict
 #print axioms tree_async_same_log
 #print axioms GorumsV.Tie.C02.P_qc_good
